@@ -20,7 +20,13 @@ pub fn emit_struct(r#struct: &StructInner) -> String {
             }
             _ => unreachable!(),
         };
-        contents.push_str(&if count == 1 {
+        contents.push_str(&if count == 1 && matches!(field.val.0, idlc_mir::Type::Struct(_)) {
+            // The marshalling code assigns the members of nested structs in place.
+            format!(
+                r#"public {ty} {ident} = new {ty}();
+        "#
+            )
+        } else if count == 1 {
             format!(
                 r#"public {ty} {ident};
         "#
